@@ -500,3 +500,10 @@ def stored_attr_under(fa, attr: str, facts_src=()) -> Optional[str]:
     if len(st) != 1 or fa.syntactic_guards(st[0]):
         return None
     return value_under(fa, st[0].value, fa.node_of(st[0]).id, facts_src)
+
+
+def enclosing_if(node):
+    for p in parents(node):
+        if isinstance(p, ast.If):
+            return p
+    return None
